@@ -381,6 +381,13 @@ class Engine(object):
             return False
         if self.pure:
             raise OutOfSubset('fork inside a quantified/pure context')
+        # a condition already decided on this path (syntactically): no new fork
+        neg = z3.simplify(z3.Not(cond))
+        for c in self.path.pc:
+            if c.eq(cond):
+                return True
+            if c.eq(neg) or (z3.is_not(c) and c.arg(0).eq(cond)):
+                return False
         idx = len(self.path.trace)
         if idx < len(self._prefix):
             choice = self._prefix[idx]
@@ -457,6 +464,11 @@ class Engine(object):
             return SRef(z3.Select(self.heap_array(attr), ref.t), cls, len(kind) > 2 and kind[2])
         if kind == 'fnval':
             return OpaqueFn(ref, attr)
+        if kind == 'optstr':
+            for a, srt in ((attr, StrSort), (attr + '#none', z3.BoolSort())):
+                if a not in self.heap_sorts:
+                    self.heap_sorts[a] = srt
+            return SOptStr(z3.Select(self.heap_array(attr + '#none'), ref.t), z3.Select(self.heap_array(attr), ref.t))
         if isinstance(kind, tuple) and kind[0] == 'optref':
             return SOptRef(z3.Select(self.heap_array(attr + '#none'), ref.t), z3.Select(self.heap_array(attr), ref.t), kind[1])
         raise OutOfSubset('attribute kind %r' % (kind,))
@@ -575,6 +587,22 @@ def _has_quantifier(t, depth=0):
     if depth > 6:
         return False
     return any(_has_quantifier(c, depth + 1) for c in t.children())
+
+
+NONEMPTY = z3.Function('NONEMPTY', StrSort, z3.BoolSort())
+
+
+class SOptStr(Sym):
+    """str-or-None attribute (StructMember.bound / .size)"""
+
+    def __init__(self, isnone, t):
+        self.isnone, self.t = isnone, t
+
+    def sym_truthy(self, vm):
+        return z3.And(z3.Not(self.isnone), NONEMPTY(self.t))
+
+    def sym_is_none(self, vm):
+        return self.isnone
 
 
 class OpaqueFn(Sym):
